@@ -30,6 +30,7 @@ type Env struct {
 	calleeFn   *ssa.Function
 	finalCache map[string]envVar
 	cst        *State // state whose local cells are current (differs from st inside old())
+	oldEnv     *Env   // step clauses: old(E) is E evaluated in this environment (head of the iteration)
 }
 
 var nilType = types.Typ[types.UntypedNil]
@@ -745,7 +746,31 @@ func (fc *FnCtx) transCall(env *Env, e *CCall) (Val, types.Type) {
 	}
 	if id, ok := e.Fun.(*CIdent); ok {
 		switch id.Name {
+		case "before":
+			// step clauses: before(E) is E in the heap at the head of the iteration with the locals' current values
+			if env.oldEnv == nil {
+				fc.tfail("before() is only available in loop step clauses")
+			}
+			env2 := *env
+			env2.st = env.oldEnv.st
+			if env2.cst == nil {
+				env2.cst = env.st
+			}
+			env2.oldEnv = nil
+			return fc.transExpr(&env2, e.Args[0])
 		case "old":
+			if env.oldEnv != nil {
+				env2 := *env.oldEnv
+				env2.vars = map[string]envVar{}
+				for k, v := range env.vars {
+					env2.vars[k] = v // includes quantifier-bound variables
+				}
+				for k, v := range env.oldEnv.vars {
+					env2.vars[k] = v
+				}
+				env2.oldEnv = nil
+				return fc.transExpr(&env2, e.Args[0])
+			}
 			if env.old == nil {
 				fc.tfail("old() not available here")
 			}
@@ -899,6 +924,13 @@ func (fc *FnCtx) transCall(env *Env, e *CCall) (Val, types.Type) {
 				return tb.App(tb.DeclFun("strconv_AtoiOK", []string{"Str"}, "Bool"), "Bool", s), boolT
 			}
 			return tb.App(tb.DeclFun("strconv_AtoiVal", []string{"Str"}, "Int"), "Int", s), intT
+		case "called":
+			// called("NAME"): a call to NAME has been executed earlier on this path of the function
+			s, ok := e.Args[0].(*CStr)
+			if !ok {
+				fc.tfail("called needs a string literal")
+			}
+			return fc.calledFlag(env.st, s.Val), boolT
 		case "infunc":
 			s, ok := e.Args[0].(*CStr)
 			if !ok {
